@@ -225,7 +225,7 @@ theorem C09_roundtrip (fmt : Fmt) (c0 : Option (List ChnaEntry)) (a0 b0 : Option
         (encAll ([] ++ bodyC fmt c0 a0 b0 4294967295 (dataOf ops) (pad (dataOf ops).length) (pendChna c0 ops) (pendAxml a0 ops)
           (pendBext b0 ops)) ++ []) := by
       rw [List.append_nil]; exact hf
-    have hfin := finishRead_written (ff := idBW64) (ds := some ⟨R, (dataOf ops).length, []⟩) hfmt hc0 hcF hf'
+    have hfin := finishRead_written (w := []) (ff := idBW64) (ds := some ⟨R, (dataOf ops).length, []⟩) hfmt hc0 hcF hf'
       (by simp) (by intro d hd; cases hd; rfl) hframes
     rw [hpl48] at hfin
     simp only [readFile, hhead, hw, hfin]
@@ -264,7 +264,7 @@ theorem C09_roundtrip (fmt : Fmt) (c0 : Option (List ChnaEntry)) (a0 b0 : Option
         (encAll ([junkC] ++ bodyC fmt c0 a0 b0 (dataOf ops).length (dataOf ops) (pad (dataOf ops).length) (pendChna c0 ops)
           (pendAxml a0 ops) (pendBext b0 ops)) ++ []) := by
       rw [List.append_nil]; exact hf
-    have hfin := finishRead_written (ff := idRIFF) (ds := none) hfmt hc0 hcF hf'
+    have hfin := finishRead_written (w := []) (ff := idRIFF) (ds := none) hfmt hc0 hcF hf'
       (by intro x hx; rw [List.mem_singleton.1 hx]; rfl) (by intro d hd; cases hd) hframes
     rw [hpl12] at hfin
     simp only [readFile, hhead, hw, hfin]
